@@ -252,7 +252,7 @@ def subst(v, sub):
 
 
 def is_write(e):
-    return e['op'] != 'load' and not (e['op'] == 'cas' and not e['success'])
+    return e['op'] not in ('load', 'wait', 'notify_one', 'notify_all') and not (e['op'] == 'cas' and not e['success'])
 
 
 def word_symbols(path):
